@@ -42,6 +42,20 @@ DriftCmds ==
   \cup {[t |-> "drift", op |-> "rm-chk", id |-> c] : c \in Chks}
   \cup {[t |-> "drift", op |-> "node-meta"], [t |-> "drift", op |-> "node-rm"]}
 
+\* profile "core": a sub-alphabet that is explored one step deeper
+Core(c) ==
+  CASE c.t = "add-svc" -> (c.id = "s1" /\ c.chks # <<>>) \/ (c.id = "s2" /\ c.chks = <<>> /\ c.def.port = 1)
+    [] c.t = "add-chk" -> c.id = "c3"
+    [] c.t = "upd-chk" -> (c.id = "c1" /\ c.status = "critical") \/ (c.id = "c3" /\ c.status = "passing")
+    [] c.t = "rm-svc" -> TRUE
+    [] c.t = "rm-chk" -> c.id = "c3"
+    [] c.t = "fire" -> c.id = "c3"
+    [] c.t = "drift" -> \/ c.op = "node-rm"
+                        \/ (c.op = "set-svc" /\ (c.id = "sx" \/ (c.id = "s1" /\ c.def.tag = "b")))
+                        \/ (c.op = "rm-svc" /\ c.id = "s1")
+                        \/ (c.op = "set-chk" /\ c.id \in {"c1", "cx"})
+InProfile(c) == Profile # "core" \/ Core(c)
+
 \* commands that cannot change anything in this state are left out of the exhaustive search
 Useful(s, c) ==
   CASE c.t = "fire" -> Has(s.chks, c.id) /\ s.chks[c.id].defer
@@ -71,7 +85,7 @@ Init == st = InitState /\ aux = [ex |-> {}, last |-> NoLast] /\ hist = <<>>
 
 StepCmd ==
   \E c \in LocalCmds \cup DriftCmds :
-     /\ Useful(st, c)
+     /\ InProfile(c) /\ Useful(st, c)
      /\ st' = ApplyCmd(st, c).st
      /\ aux' = [ex |-> IF c.t = "drift" THEN aux.ex \cup DriftTouches(st, c) ELSE aux.ex,
                 last |-> [NoLast EXCEPT !.readded = Readded(c)]]
